@@ -80,6 +80,7 @@ long vk_shm_size(int obj);
 int  vk_shm_obj_at(const void *addr);        /* object whose backing store starts at addr, -1 */
 long vk_mapped_pages(int proc);              /* pages currently mapped by a process */
 long vk_map_len(int proc, const void *addr); /* bytes (page rounded) mapped at addr by proc, 0 if none */
+int  vk_map_writable(int proc, const void *addr); /* some live mapping of proc at addr has PROT_WRITE */
 int  vk_open_fds(int proc);
 int  vk_names_linked(void);                  /* names (sem + shm) currently linked */
 unsigned char *vk_shm_mem(int obj);
